@@ -113,7 +113,9 @@ func run(c *core.Ctx) {
 	for n := 0; n <= c.N(8, 12, 12); n++ {
 		for seed := int64(1); seed <= 6; seed++ {
 			exec(c, Case{Fn: "ShuffleRand", Ints: iota(n), Seed: seed})
-			exec(c, Case{Fn: "Shuffle", Ints: iota(n), Seed: seed})
+			if seed == 1 { // the global generator is not reseeded: the seed plays no role, one case per input
+				exec(c, Case{Fn: "Shuffle", Ints: iota(n)})
+			}
 		}
 	}
 	c.Exhaustive = true
@@ -164,7 +166,11 @@ func run(c *core.Ctx) {
 			}
 		default:
 			fn := []string{"Shuffle", "ShuffleRand"}[c.Rng.Intn(2)]
-			exec(c, Case{Fn: fn, Ints: iota(n), Seed: int64(c.Rng.Intn(1 << 30))})
+			seed := int64(c.Rng.Intn(1 << 30))
+			if fn == "Shuffle" {
+				seed = 0 // unused by the global generator
+			}
+			exec(c, Case{Fn: fn, Ints: iota(n), Seed: seed})
 		}
 	}
 	large(c)
@@ -243,13 +249,15 @@ func large(c *core.Ctx) {
 		for seed := int64(1); seed <= 3; seed++ {
 			noEmit = t > 129
 			exec(c, Case{Fn: "ShuffleRand", Ints: iota(t), Seed: seed + int64(t)})
-			exec(c, Case{Fn: "Shuffle", Ints: iota(t), Seed: seed + int64(t)})
+			if seed == 1 {
+				exec(c, Case{Fn: "Shuffle", Ints: iota(t)})
+			}
 		}
 	}
 	noEmit = false
 	c.Note(fmt.Sprintf("large: %d lengths 11..4097 around the powers of two x 6 tie patterns (all equal, 2 keys, 7 keys, ~n/8 keys, "+
 		"mostly distinct, fixed interleaving) x 6 sort functions (+ lexicographic less), 7 targets x 3 search functions, "+
-		"3 seeds x Shuffle/ShuffleRand; checked by the direct oracle, the smaller ones (sorts <= 33 and a sample up to 129, searches and shuffles <= 129, "+
+		"3 seeds x ShuffleRand, Shuffle once; checked by the direct oracle, the smaller ones (sorts <= 33 and a sample up to 129, searches and shuffles <= 129, "+
 		"a sample of searches up to 4097) also by the model", len(bigSizes)))
 }
 
